@@ -22,6 +22,84 @@ open Sqfs.Obj Sqfs.Obj.Kinds
 theorem desc_wellformed : ∀ k : Kind, WfDesc (desc k) := by
   intro k; cases k <;> decide
 
+/-! ### the invariant, and the heaps of the instantiating examples
+
+`Balanced h U` (`Sqfs.Proofs.ObjBal`): every live object has both hooks and a reference count equal to the number of
+references that exist to it (`U x` held by the user + slots of live objects), nothing refers to a freed object, every live
+buffer has exactly one owner, internal pointers point into the owner's buffers. -/
+
+/-- the empty heap is balanced, and every constructor (`sqfs_*_create`, modelled by `construct`) keeps the heap
+balanced with the caller holding one reference to the new object: the theorems above apply to every heap the
+library builds from constructors, grabs, copies and drops -/
+theorem constructed_balanced (k : Kind) (h : Heap) (U : Nat → Nat) (file cmp : Nat)
+    (hb : Balanced h U) (hf : (h.objs file).isSome) (hc : (h.objs cmp).isSome) :
+    Balanced (construct h k file cmp).1
+      (fun y => if y = (construct h k file cmp).2 then U (construct h k file cmp).2 + 1 else U y) :=
+  (construct_bal k hb hf hc).pendingToUser
+
+/-- the user's file and compressor (objects 0 and 1), each held once -/
+def envHeap : Heap := (newObj (newObj Heap.empty .file [] [] []).1 .gzip [] [] []).1
+
+theorem envHeap_balanced : ∃ U, Balanced envHeap U ∧ U 0 = 1 ∧ U 1 = 1 := by
+  have b1 := (Bal.newObj (P := []) (PB := []) .file [] [] [] (by simpa using Balanced.empty) (by simp) (by simp)).pendingToUser
+  have b2 := (Bal.newObj (P := []) (PB := []) .gzip [] [] [] (by simpa using b1) (by simp) (by simp)).pendingToUser
+  exact ⟨_, b2, by decide, by decide⟩
+
+/-! #### the heaps of the instantiating examples
+
+`exH`: the user's file (object 0) and compressor (1) and a directory reader over them (object 4, owning the meta readers 2
+and 3).  `exHX`: in addition a data reader (object 6, owning the fragment table 5) and an xattr writer (object 7, the only
+kind with internal pointers) over the same file and compressor.  Both are built by constructors from the empty heap, hence
+balanced (`constructed_balanced`), with the user holding one reference to each of the objects it created. -/
+
+def exH : Heap := (construct envHeap .dirReader 0 1).1
+def exHD : Heap := (construct exH .dataReader 0 1).1
+def exHX : Heap := (construct exHD .xattrWriter 0 1).1
+
+theorem exH_balanced : ∃ U, Balanced exH U ∧ U 0 = 1 ∧ U 1 = 1 ∧ U 4 = 1 ∧ (∀ x, x ≠ 0 → x ≠ 1 → x ≠ 4 → U x = 0) := by
+  obtain ⟨U, hb, h0, h1⟩ := envHeap_balanced
+  have e4 : (construct envHeap .dirReader 0 1).2 = 4 := by decide
+  have hU4 : U 4 = 0 := (hb.dead 4 (Or.inl (by decide))).1
+  have b3 := constructed_balanced .dirReader envHeap U 0 1 hb (by decide) (by decide)
+  simp only [e4] at b3
+  refine ⟨_, b3, by simp [h0], by simp [h1], by simp [hU4], ?_⟩
+  intro x x0 x1 x4
+  simp only [x4, if_false]
+  by_cases hx : x < envHeap.nobj
+  · have : envHeap.nobj = 2 := by decide
+    omega
+  · cases hv : envHeap.objs x with
+    | none => exact (hb.dead x (Or.inl hv)).1
+    | some _ => exact absurd (hb.bound x (by simp [hv])) hx
+
+theorem exHX_balanced : ∃ U, Balanced exHX U ∧ U 0 = 1 ∧ U 1 = 1 ∧ U 4 = 1 ∧ U 6 = 1 ∧ U 7 = 1 := by
+  obtain ⟨U, hb, h0, h1⟩ := envHeap_balanced
+  have e4 : (construct envHeap .dirReader 0 1).2 = 4 := by decide
+  have b3 := constructed_balanced .dirReader envHeap U 0 1 hb (by decide) (by decide)
+  have b4 := constructed_balanced .dataReader exH _ 0 1 b3 (by decide) (by decide)
+  have b5 := constructed_balanced .xattrWriter exHD _ 0 1 b4 (by decide) (by decide)
+  have e6 : (construct exH .dataReader 0 1).2 = 6 := by decide
+  have e7 : (construct exHD .xattrWriter 0 1).2 = 7 := by decide
+  have hU4 : U 4 = 0 := (hb.dead 4 (Or.inl (by decide))).1
+  have hU6 : U 6 = 0 := (hb.dead 6 (Or.inl (by decide))).1
+  have hU7 : U 7 = 0 := (hb.dead 7 (Or.inl (by decide))).1
+  simp only [e4, e6, e7] at b5
+  refine ⟨_, b5, ?_, ?_, ?_, ?_, ?_⟩ <;> simp [h0, h1, hU4, hU6, hU7]
+
+/-- what the example heap looks like: kinds, reference counts, reference slots -/
+example : (exHX.objs 4).map (fun o => (o.rc, o.refs)) = some (1, [some 2, some 3]) ∧
+    (exHX.objs 0).map (·.rc) = some 4 ∧ exHX.nobj = 8 ∧ exHX.budget = none := by decide
+
+/-- `sqfs_grab` by the user keeps the heap balanced -/
+theorem grab_balanced (h : Heap) (U : Nat → Nat) (x : Nat) (hb : Balanced h U) (hx : (h.objs x).isSome) :
+    Balanced (grab h x) (fun y => if y = x then U x + 1 else U y) := by
+  obtain ⟨ox, hox⟩ := Option.isSome_iff_exists.mp hx
+  exact (hb.grabbed hox (by simp)).pendingToUser
+
+example : ∃ U : Nat → Nat, Balanced (grab exH 4) (fun y => if y = 4 then U 4 + 1 else U y) := by
+  obtain ⟨U, hb, _⟩ := exH_balanced
+  exact ⟨U, grab_balanced exH U 4 hb (by decide)⟩
+
 /-- `copy_wellformed`: a successful `sqfs_copy` through a hook that writes the header yields an object with
 reference count 1 and both hooks set (so it can itself be dropped and copied), of the same kind. -/
 theorem copy_wellformed (D : Kind → CopyDesc) (n : Nat) (h h' : Heap) (id c : Nat) (o : Obj)
@@ -42,6 +120,19 @@ theorem copy_wellformed (D : Kind → CopyDesc) (n : Nat) (h h' : Heap) (id c : 
     | memcpy => rw [(hmem hh).2]; exact hcp
     | zeroed => exact absurd hh hw
 
+/-- instance: the directory reader of `exH`, copied with fuel 5 (the copy is object 7) -/
+example : ∃ co, (sqfsCopy desc 5 exH 4).1.objs 7 = some co ∧ co.rc = 1 ∧ co.destroy = true ∧ co.copy = true ∧ co.kind = .dirReader := by
+  cases ho : exH.objs 4 with
+  | none => exact absurd ho (by decide)
+  | some o =>
+    have e : o = (exH.objs 4).get (by decide) := by simp [ho]
+    have hc : sqfsCopy desc 5 exH 4 = ((sqfsCopy desc 5 exH 4).1, some 7) := by
+      have : (sqfsCopy desc 5 exH 4).2 = some 7 := by decide
+      exact Prod.ext rfl this
+    have hk : o.kind = .dirReader := by subst e; decide
+    have := copy_wellformed desc 5 exH _ 4 7 o ho (by subst e; decide) (by subst e; decide) hc
+    rwa [hk] at this
+
 /-- instantiation for every copyable kind (`copy_wellformed_K`): whatever the history, a copy made by the
 (repaired) hook of kind `k` has refcount 1, a destroy hook and a copy hook -/
 theorem copy_wellformed_all (k : Kind) (n : Nat) (h h' : Heap) (id c : Nat) (o : Obj)
@@ -52,14 +143,28 @@ theorem copy_wellformed_all (k : Kind) (n : Nat) (h h' : Heap) (id c : Nat) (o :
   obtain ⟨co, h1, h2, h3, h4, h5⟩ := copy_wellformed desc n h h' id c o ho hd hw hc
   exact ⟨co, h1, h2, h3, h4, hk ▸ h5⟩
 
+example : ∃ co, (sqfsCopy desc 5 exH 4).1.objs 7 = some co ∧ co.rc = 1 ∧ co.destroy = true ∧ co.copy = true ∧ co.kind = .dirReader := by
+  cases ho : exH.objs 4 with
+  | none => exact absurd ho (by decide)
+  | some o =>
+    have e : o = (exH.objs 4).get (by decide) := by simp [ho]
+    have hc : sqfsCopy desc 5 exH 4 = ((sqfsCopy desc 5 exH 4).1, some 7) := by
+      have : (sqfsCopy desc 5 exH 4).2 = some 7 := by decide
+      exact Prod.ext rfl this
+    exact copy_wellformed_all .dirReader 5 exH _ 4 7 o ho (by subst e; decide) (by subst e; decide) hc
+
 /-- `copy_equiv_idTable`: a copied id table answers every later operation sequence as the original would
 (the copy's capacity differs — `array_init_copy` allocates the used part only). -/
 theorem copy_equiv_idTable (t : IdTable) (ops : List IdOp) : idRun (idCopy t) ops = idRun t ops :=
   idRun_data ops _ _ rfl
 
+example := copy_equiv_idTable ⟨128, [5, 7]⟩ [.add 7, .add 9, .get 2, .get 9]
+
 /-- `copy_equiv_fragTable` -/
 theorem copy_equiv_fragTable (t : FragTable) (ops : List FragOp) : fragRun (fragCopy t) ops = fragRun t ops :=
   fragRun_data ops _ _ rfl
+
+example := copy_equiv_fragTable ⟨128, [(96, 10), (106, 20)]⟩ [.append 1 2, .lookup 2, .set 0 5 6, .size, .lookup 0]
 
 /-! ### safely destroyable, no leak: reference-count soundness
 
@@ -88,6 +193,11 @@ theorem copy_balanced (h : Heap) (U : Nat → Nat) (o : Nat)
   rw [hU] at this
   exact this
 
+example : ∃ (U : Nat → Nat) (h' : Heap) (c : Nat), sqfsCopyTop desc exHX 4 = (h', some c) ∧ Balanced h' (fun y => if y = c then 1 else U y) := by
+  obtain ⟨U, hb, _⟩ := exHX_balanced
+  obtain ⟨h', c, he, _, _, hb'⟩ := copy_balanced exHX U 4 hb rfl (by decide)
+  exact ⟨U, h', c, he, hb'⟩
+
 /-- `copy_fail_safe`: whichever allocation inside `sqfs_copy` fails (`k` allocations succeed, the next one does
 not) — in the hook itself or in a nested `sqfs_copy` — a well-formed hook returns NULL or a good copy, never
 crashes, and after a NULL the heap is balanced for exactly the references the user held before: the original and
@@ -104,6 +214,15 @@ theorem copy_fail_safe (h : Heap) (U : Nat → Nat) (o k : Nat) (hb : Balanced h
   | none => exact ⟨hres.ok, hres⟩
   | some c => exact ⟨hres.1.ok, hres.1.pendingToUser⟩
 
+/-- instance: the third allocation inside the copy of the directory reader fails: NULL, heap balanced as before -/
+example : ∃ U : Nat → Nat, (sqfsCopyTop desc { exHX with budget := some 2 } 4).1.crash = none ∧
+    Balanced (sqfsCopyTop desc { exHX with budget := some 2 } 4).1 U := by
+  obtain ⟨U, hb, _⟩ := exHX_balanced
+  have h := copy_fail_safe exHX U 4 2 hb (by decide)
+  have hn : (sqfsCopyTop desc { exHX with budget := some 2 } 4).2 = none := by decide
+  rw [hn] at h
+  exact ⟨U, h.1, h.2⟩
+
 /-- `release_safe`: the user releases references in **any order and interleaving** (`ds` lists the objects
 dropped, each at most as often as it is held): `sqfs_drop` never calls a NULL hook, never touches or destroys a
 freed object, never frees a buffer twice (the heap does not crash), and the heap stays balanced for what is
@@ -113,6 +232,23 @@ theorem release_safe (h : Heap) (U : Nat → Nat) (ds : List Nat)
     (ds.foldl sqfsDrop h).crash = none ∧ Balanced (ds.foldl sqfsDrop h) (fun x => U x - ds.count x) :=
   have := Bal.dropAllTop ds hb hc
   ⟨this.ok, this⟩
+
+/-- instance: the user releases the directory reader, the file and the xattr writer of `exHX`, in that order -/
+example : ∃ U : Nat → Nat, ([4, 0, 7].foldl sqfsDrop exHX).crash = none ∧
+    Balanced ([4, 0, 7].foldl sqfsDrop exHX) (fun x => U x - [4, 0, 7].count x) := by
+  obtain ⟨U, hb, h0, _, h4, _, h7⟩ := exHX_balanced
+  refine ⟨U, release_safe exHX U [4, 0, 7] hb ?_⟩
+  intro x
+  by_cases a : x = 4
+  · subst a; simp [h4]
+  · by_cases b : x = 0
+    · subst b; simp [h0]
+    · by_cases c : x = 7
+      · subst c; simp [h7]
+      · have : ¬ 4 = x := fun e => a e.symm
+        have : ¬ 0 = x := fun e => b e.symm
+        have : ¬ 7 = x := fun e => c e.symm
+        simp [List.count_cons, *]
 
 /-- both release orders of original and copy, spelled out -/
 theorem release_safe_either_order (h : Heap) (U : Nat → Nat) (o c : Nat)
@@ -134,6 +270,11 @@ theorem release_safe_either_order (h : Heap) (U : Nat → Nat) (o c : Nat)
   have h1 := release_safe h U [o, c] hb (fun x => (cnt x).1)
   have h2 := release_safe h U [c, o] hb (fun x => (cnt x).2)
   exact ⟨h1.1, h2.1, h1.2, h2.2⟩
+
+example : (sqfsDrop (sqfsDrop exHX 4) 6).crash = none ∧ (sqfsDrop (sqfsDrop exHX 6) 4).crash = none := by
+  obtain ⟨U, hb, _, _, h4, h6, _⟩ := exHX_balanced
+  have h := release_safe_either_order exHX U 4 6 hb (by omega) (by omega) (by decide)
+  exact ⟨h.1, h.2.1⟩
 
 /-- `copy_then_release_restores`: copying an object and releasing the copy gives back **exactly** the heap there
 was: every object with the reference count it had (in particular the shared file and compressor), every buffer
@@ -169,19 +310,118 @@ theorem copy_then_release_restores (h : Heap) (U : Nat → Nat) (o : Nat)
   obtain ⟨e1, e2⟩ := restore_of_frames hb hrel.2 hsl hk
   exact ⟨h', c, rfl, hrel.1, e1, e2⟩
 
+example : ∃ h' c, sqfsCopyTop desc exHX 4 = (h', some c) ∧ (sqfsDrop h' c).crash = none ∧
+    (sqfsDrop h' c).objs = exHX.objs ∧ (sqfsDrop h' c).bufs = exHX.bufs := by
+  obtain ⟨U, hb, _⟩ := exHX_balanced
+  exact copy_then_release_restores exHX U 4 hb rfl (by decide)
+
 /-- `no_leak`: once every reference the user held has been released, no object and no buffer is left -/
 theorem no_leak (h : Heap) (U : Nat → Nat) (ds : List Nat)
     (hb : Balanced h U) (hc : ∀ x, ds.count x = U x) :
     (∀ x, (ds.foldl sqfsDrop h).objs x = none) ∧ (∀ b, (ds.foldl sqfsDrop h).bufs b = none) :=
   (release_safe h U ds hb (fun x => Nat.le_of_eq (hc x))).2.empty_of_no_refs (fun x => by simp [hc x])
 
-/-- reference counts are exact at every moment: in a balanced heap an object's count is the number of references
-the user holds plus the number of slots of live objects that point to it — so the grabs a copy took on the shared
-file and compressor are gone exactly when the copy is -/
-theorem refcount_exact (h : Heap) (U : Nat → Nat) (x : Nat) (ox : Obj) (hb : Balanced h U) (hx : h.objs x = some ox) :
+/-- instance: in `exH` the user holds the file, the compressor and the directory reader; released (file first), nothing is left -/
+example : (∀ x, ([0, 4, 1].foldl sqfsDrop exH).objs x = none) ∧ (∀ b, ([0, 4, 1].foldl sqfsDrop exH).bufs b = none) := by
+  obtain ⟨U, hb, h0, h1, h4, hz⟩ := exH_balanced
+  refine no_leak exH U [0, 4, 1] hb ?_
+  intro x
+  by_cases a : x = 0
+  · subst a; simp [h0]
+  · by_cases b : x = 1
+    · subst b; simp [h1]
+    · by_cases c : x = 4
+      · subst c; simp [h4]
+      · have := hz x a b c
+        have : ¬ 0 = x := fun e => a e.symm
+        have : ¬ 1 = x := fun e => b e.symm
+        have : ¬ 4 = x := fun e => c e.symm
+        simp [*]
+
+/-- how the invariant reads (**definition-level**: this is the field `live` of the invariant `Balanced h U` projected out,
+not a consequence of it): in a balanced heap an object's count is the number of references the user holds plus the number of
+slots of live objects that point to it, and both hooks are set.  What is *proved* about counts is that every operation of the
+library re-establishes the invariant (`copy_balanced`, `constructed_balanced`, `grab_balanced`, `release_safe`,
+`ops_release_safe`) and `refcount_exact` below. -/
+theorem refcount_invariant_reading (h : Heap) (U : Nat → Nat) (x : Nat) (ox : Obj) (hb : Balanced h U) (hx : h.objs x = some ox) :
     ox.rc = U x + refCount h [] x ∧ ox.destroy = true ∧ ox.copy = true := by
   obtain ⟨h1, h2, h3, _, _, _⟩ := hb.live x ox hx (by simp)
   exact ⟨by simpa using h3, h1, h2⟩
+
+example : ∃ (U : Nat → Nat) (ox : Obj), exHX.objs 0 = some ox ∧ ox.rc = U 0 + refCount exHX [] 0 := by
+  obtain ⟨U, hb, _⟩ := exHX_balanced
+  cases hx : exHX.objs 0 with
+  | none => exact absurd hx (by decide)
+  | some o0 => exact ⟨U, o0, rfl, (refcount_invariant_reading exHX U 0 o0 hb hx).1⟩
+
+/-- an event of the user that only moves reference counts: `sqfs_grab` or `sqfs_drop` -/
+def isRefEv : Ev → Bool
+  | .op _ _ => false
+  | _ => true
+
+/-- `refcount_exact`: **the grabs a copy took are gone exactly when the copy is.**  Copy any live object of a balanced heap
+and let the user then grab and release references in any order and interleaving — to the copy, the original, the shared file
+and compressor, anything it holds (`es`, admissible: only objects held at that moment are touched).  If at the end the user
+holds exactly the references it held before the copy (so every reference to the copy has been released), the heap is
+**exactly** the heap there was before the copy: every object — in particular the shared file and compressor, which the copy and
+the objects it owns had grabbed — is there with the reference count it had (`Obj.rc` is a field of the object), every buffer
+with its contents, nothing is added, and nothing crashed on the way.  (`copy_then_release_restores` is the case `es = [drop c]`;
+the statement needs no hypothesis on the kind or the shape of the object graph.) -/
+theorem refcount_exact (h : Heap) (U : Nat → Nat) (o : Nat)
+    (hb : Balanced h U) (hbud : h.budget = none) (hl : (h.objs o).isSome) :
+    ∃ h' c, sqfsCopyTop desc h o = (h', some c) ∧ h.objs c = none ∧ U c = 0 ∧
+      ∀ es : List Ev, (∀ e ∈ es, isRefEv e = true) → Admissible (fun y => if y = c then 1 else U y) es →
+        userAfter (fun y => if y = c then 1 else U y) es = U →
+        (runEvs h' es).crash = none ∧ (runEvs h' es).objs = h.objs ∧ (runEvs h' es).bufs = h.bufs := by
+  obtain ⟨h', c, he, hnone, hU, hb'⟩ := copy_balanced h U o hb hbud hl
+  refine ⟨h', c, he, hnone, hU, ?_⟩
+  intro es hr ha hu
+  have hb'' := runEvs_bal es hb' ha
+  rw [hu] at hb''
+  have f1 : Frame h h' := by
+    have := Frame.sqfsCopy desc h.nobj h o
+    have e : (sqfsCopy desc h.nobj h o).1 = h' := congrArg Prod.fst he
+    rwa [e] at this
+  have f2 : ∀ (es : List Ev) (g : Heap), (∀ e ∈ es, isRefEv e = true) → Frame g (runEvs g es) := by
+    intro es
+    induction es with
+    | nil => intro g _; exact Frame.refl g
+    | cons e es ih =>
+      intro g hr
+      have h1 : Frame g (e.apply g) := by
+        cases e with
+        | op x w => have := hr (.op x w) List.mem_cons_self; simp [isRefEv] at this
+        | grab x => exact Frame.grab g x
+        | drop x => exact Frame.drop g.nobj g x
+      exact h1.trans (ih (e.apply g) (fun e' he' => hr e' (List.mem_cons_of_mem _ he')))
+  obtain ⟨e1, e2⟩ := restore_of_frame hb hb'' (f1.trans (f2 es h' hr))
+  exact ⟨hb''.ok, e1, e2⟩
+
+/-- instance: the directory reader of `exHX` is copied (the copy is object 10; it and its two meta readers grab the file, whose
+count goes from 4 to 6); the user grabs the file and the copy once more, then releases in a mixed order; at the end the heap is
+the one before the copy, the file's count is 4 again -/
+example : ∃ h', (sqfsCopyTop desc exHX 4) = (h', some 10) ∧ (h'.objs 0).map (·.rc) = some 6 ∧
+    (runEvs h' [.grab 0, .grab 10, .drop 10, .drop 0, .drop 10]).objs = exHX.objs ∧
+    (runEvs h' [.grab 0, .grab 10, .drop 10, .drop 0, .drop 10]).bufs = exHX.bufs ∧
+    ((runEvs h' [.grab 0, .grab 10, .drop 10, .drop 0, .drop 10]).objs 0).map (·.rc) = some 4 := by
+  obtain ⟨U, hb, h0, _, _, _, _⟩ := exHX_balanced
+  obtain ⟨h', c, he, _, hUc, hall⟩ := refcount_exact exHX U 4 hb rfl (by decide)
+  have hc : c = 10 := by
+    have e1 : (sqfsCopyTop desc exHX 4).2 = some 10 := by decide
+    rw [he] at e1; exact Option.some.inj e1
+  subst hc
+  have hr := hall [.grab 0, .grab 10, .drop 10, .drop 0, .drop 10] (by decide)
+    (by simp [Admissible, Ev.user, Ev.target, h0])
+    (by funext y
+        by_cases hy : y = 10
+        · subst hy; simp [userAfter, Ev.user, hUc]
+        · by_cases hy0 : y = 0
+          · subst hy0; simp [userAfter, Ev.user]
+          · simp [userAfter, Ev.user, hy, hy0])
+  refine ⟨h', he, ?_, hr.2.1, hr.2.2, ?_⟩
+  · have e2 : ((sqfsCopyTop desc exHX 4).1.objs 0).map (·.rc) = some 6 := by decide
+    rw [he] at e2; exact e2
+  · rw [hr.2.1]; decide
 
 /-- `copy_equiv` (object level): right after `sqfs_copy` the copy observes through every buffer slot and every
 internal pointer exactly what the original observes, and the original observes what it observed before. Every
@@ -197,6 +437,23 @@ theorem copy_equiv (h : Heap) (U : Nat → Nat) (o : Nat) (ob : Obj)
   have he' : sqfsCopy desc (k + 1) h o = (h', some c) := by rw [← hk]; exact he
   obtain ⟨v1, v2⟩ := sqfsCopy_view desc desc_wellformed k hb hbud hox (by omega) hsh.1 hsh.2.1 hsh.2.2 he'
   exact ⟨h', c, he, v1, v2⟩
+
+/-- instances in one balanced heap (`ShapeOk` and `Balanced` jointly): the xattr writer (object 7: two internal pointers into
+its own buffers) and the directory reader (object 4) of `exHX` -/
+example : (∃ h' c, sqfsCopyTop desc exHX 7 = (h', some c) ∧ view h' c = view exHX 7 ∧ view h' 7 = view exHX 7) ∧
+    (∃ h' c, sqfsCopyTop desc exHX 4 = (h', some c) ∧ view h' c = view exHX 4 ∧ view h' 4 = view exHX 4) := by
+  obtain ⟨U, hb, _⟩ := exHX_balanced
+  constructor
+  · cases ho : exHX.objs 7 with
+    | none => exact absurd ho (by decide)
+    | some o7 =>
+      have e : o7 = (exHX.objs 7).get (by decide) := by simp [ho]
+      exact copy_equiv exHX U 7 o7 hb rfl ho (by subst e; exact ⟨by decide, by decide, by decide⟩)
+  · cases ho : exHX.objs 4 with
+    | none => exact absurd ho (by decide)
+    | some o4 =>
+      have e : o4 = (exHX.objs 4).get (by decide) := by simp [ho]
+      exact copy_equiv exHX U 4 o4 hb rfl ho (by subst e; exact ⟨by decide, by decide, by decide⟩)
 
 /-- `copy_same_buffer_sizes`: for the kinds whose hooks duplicate every buffer at its allocated size — required
 of kinds that, like the data reader, index their cached blocks up to `block_size` without recording the allocated
@@ -215,6 +472,12 @@ theorem copy_same_buffer_sizes (h : Heap) (U : Nat → Nat) (o : Nat) (ob : Obj)
   obtain ⟨oc, h1, h2⟩ := sqfsCopy_caps desc desc_wellformed k hb hbud hox (by omega) hdup hlen he'
   exact ⟨h', c, oc, he, h1, h2⟩
 
+/-- instance: the data reader (object 6) of the balanced heap `exHX`: `hdup`, `hlen` and `Balanced` jointly -/
+example : ∃ h' c oc, sqfsCopyTop desc exHX 6 = (h', some c) ∧ h'.objs c = some oc ∧
+    oc.bufs.map (slotCap h') = ((exHX.objs 6).get (by decide)).bufs.map (slotCap exHX) := by
+  obtain ⟨U, hb, _⟩ := exHX_balanced
+  exact copy_same_buffer_sizes exHX U 6 _ hb rfl (Option.some_get _).symm (by decide) (by decide)
+
 /-- the data reader (and the dir reader, xattr reader, file) are such kinds in the repaired descriptions -/
 example : ∀ k ∈ [Kind.dataReader, .dirReader, .xattrReader, .file], ∀ a ∈ (desc k).bufs, a = .dup := by decide
 
@@ -227,38 +490,27 @@ theorem copy_independent (h : Heap) (U : Nat → Nat) (x y : Nat) (ox oy : Obj) 
   obtain ⟨h1, h2, _⟩ := writes_independent ws hb hx hy hne
   exact ⟨h2, h1, h1.ok⟩
 
+/-- instances: stores through the directory reader's slots do not change what the data reader observes; stores through the xattr
+writer's slot 0 and internal pointer 2 do not change what the directory reader observes -/
+example : view (writes exHX 4 [(0, 5), (0, 6)]) 6 = view exHX 6 ∧ view (writes exHX 7 [(0, 5), (2, 6)]) 4 = view exHX 4 := by
+  obtain ⟨U, hb, _⟩ := exHX_balanced
+  exact ⟨(copy_independent exHX U 4 6 _ _ [(0, 5), (0, 6)] hb (Option.some_get (by decide)).symm (Option.some_get (by decide)).symm (by decide)).1,
+    (copy_independent exHX U 7 4 _ _ [(0, 5), (2, 6)] hb (Option.some_get (by decide)).symm (Option.some_get (by decide)).symm (by decide)).1⟩
+
 /-- owned buffers of distinct live objects are disjoint -/
 theorem copy_buffers_disjoint (h : Heap) (U : Nat → Nat) (x y b : Nat) (ox oy : Obj)
     (hb : Balanced h U) (hx : h.objs x = some ox) (hy : h.objs y = some oy) (hne : x ≠ y)
     (hbx : some b ∈ ox.bufs) : some b ∉ oy.bufs :=
   hb.bufs_disjoint hx hy (by simp) (by simp) hne hbx
 
-/-- the empty heap is balanced, and every constructor (`sqfs_*_create`, modelled by `construct`) keeps the heap
-balanced with the caller holding one reference to the new object: the theorems above apply to every heap the
-library builds from constructors, grabs, copies and drops -/
-theorem constructed_balanced (k : Kind) (h : Heap) (U : Nat → Nat) (file cmp : Nat)
-    (hb : Balanced h U) (hf : (h.objs file).isSome) (hc : (h.objs cmp).isSome) :
-    Balanced (construct h k file cmp).1
-      (fun y => if y = (construct h k file cmp).2 then U (construct h k file cmp).2 + 1 else U y) :=
-  (construct_bal k hb hf hc).pendingToUser
-
-/-- `sqfs_grab` by the user keeps the heap balanced -/
-theorem grab_balanced (h : Heap) (U : Nat → Nat) (x : Nat) (hb : Balanced h U) (hx : (h.objs x).isSome) :
-    Balanced (grab h x) (fun y => if y = x then U x + 1 else U y) := by
-  obtain ⟨ox, hox⟩ := Option.isSome_iff_exists.mp hx
-  exact (hb.grabbed hox (by simp)).pendingToUser
+/-- instance: buffer 2 belongs to the directory reader of `exH`, hence not to its first meta reader (object 2) -/
+example : some 2 ∉ ((exH.objs 2).get (by decide)).bufs := by
+  obtain ⟨U, hb, _⟩ := exH_balanced
+  exact copy_buffers_disjoint exH U 4 2 2 _ _ hb (Option.some_get (by decide)).symm (Option.some_get _).symm (by decide) (by decide)
 
 /-! non-vacuity -/
 example : ∃ h h' c, sqfsCopy desc 3 h 0 = (h', some c) ∧ (h.objs 0).isSome :=
   ⟨(construct Heap.empty .idTable 0 0).1, _, _, rfl, rfl⟩
-/-- the user's file and compressor (objects 0 and 1), each held once -/
-def envHeap : Heap := (newObj (newObj Heap.empty .file [] [] []).1 .gzip [] [] []).1
-
-theorem envHeap_balanced : ∃ U, Balanced envHeap U ∧ U 0 = 1 ∧ U 1 = 1 := by
-  have b1 := (Bal.newObj (P := []) (PB := []) .file [] [] [] (by simpa using Balanced.empty) (by simp) (by simp)).pendingToUser
-  have b2 := (Bal.newObj (P := []) (PB := []) .gzip [] [] [] (by simpa using b1) (by simp) (by simp)).pendingToUser
-  exact ⟨_, b2, by decide, by decide⟩
-
 /-- the hypotheses of `copy_balanced` / `release_safe` / `copy_independent` are satisfiable: a directory reader over
 the user's file and compressor (the reader is object 4 and owns the meta readers 2 and 3) -/
 example : ∃ h U, Balanced h U ∧ h.budget = none ∧ (h.objs 4).map (·.refs) = some [some 2, some 3] ∧ U 4 = 1 ∧ U 0 = 1 := by
@@ -305,6 +557,11 @@ theorem copy_fail_restores (h : Heap) (U : Nat → Nat) (o k : Nat) (hb : Balanc
   obtain ⟨e1, e2⟩ := restore_of_frame hb hm hf
   exact ⟨hc, e1, e2⟩
 
+example : (sqfsCopyTop desc { exH with budget := some 2 } 4).1.objs = exH.objs ∧
+    (sqfsCopyTop desc { exH with budget := some 2 } 4).1.bufs = exH.bufs := by
+  obtain ⟨U, hb, _⟩ := exH_balanced
+  exact (copy_fail_restores exH U 4 2 hb (by decide) (by decide)).2
+
 /-- `ops_release_safe`: **any history that mixes operations, grabs and releases** — operations that store through own
 pointers, replace own buffers by fresh ones (realloc, cache replacement, first fill) or give them back, on any objects
 the user holds at that moment (original and copy among them), interleaved in any order with `sqfs_grab` and `sqfs_drop`
@@ -314,6 +571,14 @@ theorem ops_release_safe (h : Heap) (U : Nat → Nat) (es : List Ev) (hb : Balan
     (runEvs h es).crash = none ∧ Balanced (runEvs h es) (userAfter U es) :=
   have := runEvs_bal es hb ha
   ⟨this.ok, this⟩
+
+/-- instance: the reader's cache buffer is filled, replaced and given back, the reader grabbed and released twice (the second
+release destroys it and its two meta readers) -/
+def exEvs : List Ev :=
+  [.op 4 (.realloc 0 ⟨8, 8, 1⟩), .grab 4, .op 4 (.realloc 0 ⟨16, 9, 2⟩), .drop 4, .op 4 (.store 0 5), .op 4 (.release 0), .drop 4]
+example : (runEvs exH exEvs).crash = none := by
+  obtain ⟨U, hb, _, _, h4, _⟩ := exH_balanced
+  exact (ops_release_safe exH U exEvs hb (by simp [exEvs, Admissible, Ev.user, Ev.target, h4])).1
 
 /-- `copy_independent_mixed`: whatever the user does with *other* objects — operations that store, reallocate or free
 their buffers, grabs, releases down to their destruction — an object `y` it keeps holding is still there with the same
@@ -330,6 +595,13 @@ theorem copy_independent_mixed (h : Heap) (U : Nat → Nat) (es : List Ev) (y : 
   exact ⟨oy', h1, (congrArg Obj.bufs h2 : oy'.erase.bufs = oy.erase.bufs), (congrArg Obj.views h2 : oy'.erase.views = oy.erase.views),
     (congrArg Obj.refs h2 : oy'.erase.refs = oy.erase.refs)⟩
 
+/-- instance: through all of `exEvs` (which ends with the destruction of the reader) the user's file keeps its slots and is
+observed as before -/
+example : view (runEvs exH exEvs) 0 = view exH 0 := by
+  obtain ⟨U, hb, h0, _, h4, _⟩ := exH_balanced
+  exact (copy_independent_mixed exH U exEvs 0 _ hb (by simp [exEvs, Admissible, Ev.user, Ev.target, h4]) (by decide) (by omega)
+    (Option.some_get (by decide)).symm).1
+
 open Sqfs.C19R in
 /-- `copy_equiv_dataReader`: a data reader in any state the library can reach (created over any image `f` with any
 bounded decompressor, fragment table `tbl`, any history of reads, failed ones included), copied by `data_reader_copy`
@@ -343,15 +615,24 @@ theorem copy_equiv_dataReader (kw : Bool) (f : MetaReader.File) (unc : MetaReade
   rw [drCopy_eq (cacheInv_run hc hist _ (cacheInv_fresh bs tbl))]
 
 open Sqfs.C19R in
-/-- `copy_equiv_metaReader`: `meta_reader_copy` copies every field (cursor, cache tag, the whole inline block): the
-copy answers every later sequence of seeks, reads and position queries as the original (definitional — the content is
-in the tie: `mrCopy` applied to the real original's dumped state is compared with the real copy's on every run). -/
+/-- instance: a reader whose history cached a 6-byte block in a buffer of 8; two later reads -/
+example := copy_equiv_dataReader true ⟨10, fun i => UInt8.ofNat (i + 1), fun _ => false⟩ Sqfs.MetaReader.toyUnc toyUnc_bounded 8 []
+  [.read ⟨6, 2, 0, 0, [16777222]⟩ 0 6] [.read ⟨6, 2, 0, 0, [16777222]⟩ 2 3, .read ⟨6, 2, 0, 0, [16777222]⟩ 0 6]
+
+open Sqfs.C19R in
+/-- `copy_equiv_metaReader` — **definition-level** (`rfl`): the model `mrCopy` of `meta_reader_copy` copies every field (cursor,
+cache tag, the whole inline block), i.e. it is the identity on the model's state, so "the copy answers every later sequence of
+seeks, reads and position queries as the original" holds by construction and proves nothing about the C hook.  The content is
+in the tie: `mrCopy` applied to the real original's dumped state is compared with the real copy's dumped state on every run.
+Kept as the named place of the clause; not to be counted as a proof of equivalence. -/
 theorem copy_equiv_metaReader (fix : Bool) (f : MetaReader.File) (unc : MetaReader.Codec) (m : MetaReader.MR)
     (ops : List MetaReader.Op) : mrAnswers fix f unc (mrCopy m) ops = mrAnswers fix f unc m ops := rfl
 
 /-- `table_fill_is_adds`: the one-step set-up `fill n` of the table scenarios leaves the table that `n` calls of
 `sqfs_id_table_id_to_index` leave (so the boundary `used >= 0xFFFF` is reached by a real history) -/
 theorem table_fill_is_adds (n : Nat) (hn : n ≤ idLimit) : idAdds Arr.empty (List.range n) = idFill n := idFill_eq_adds n hn
+
+example := table_fill_is_adds 300 (by decide)
 
 /-! ### the generic containers under the hooks: `rbtree_copy`, `array_init_copy`, `str_table_copy` -/
 
@@ -416,6 +697,18 @@ theorem rbtree_built_wellformed (ks vs : Nat) (c : Cfg) (_hc : init ks vs = some
   exact ((writeTree_spec (build c lt kvs) st).2.2).mono (Nat.zero_le _) (Nat.le_refl _)
 
 open Sqfs.Rb in
+/-- instance: the directory cache layout with three cached inodes; the built tree is well-formed and laid out in node memory,
+and both copy theorems apply to it with their hypotheses discharged by `rbtree_built_wellformed` -/
+example : ∃ st' root', rbCopy ⟨4, 8, 8⟩ 5 (writeTree Store.empty (build ⟨4, 8, 8⟩ (fun a b => dcCmp a b == .lt)
+      [(leBytes 4 5, leBytes 8 0x571f80d44), (leBytes 4 7, leBytes 8 0x123456789abc), (leBytes 4 2, leBytes 8 0x60)])).1
+      (writeTree Store.empty (build ⟨4, 8, 8⟩ (fun a b => dcCmp a b == .lt)
+      [(leBytes 4 5, leBytes 8 0x571f80d44), (leBytes 4 7, leBytes 8 0x123456789abc), (leBytes 4 2, leBytes 8 0x60)])).2 = some (st', root') := by
+  obtain ⟨hwf, _, _, hs⟩ := rbtree_built_wellformed 4 8 ⟨4, 8, 8⟩ (by decide) (fun a b => dcCmp a b == .lt)
+    [(leBytes 4 5, leBytes 8 0x571f80d44), (leBytes 4 7, leBytes 8 0x123456789abc), (leBytes 4 2, leBytes 8 0x60)] Store.empty
+  obtain ⟨st', root', he, _⟩ := rbtree_copy_equiv ⟨4, 8, 8⟩ _ _ _ 5 hwf hs (by decide)
+  exact ⟨st', root', he⟩
+
+open Sqfs.Rb in
 /-- `copy_equiv_dirCache`: the directory reader's inode-number → reference cache (`rbtree_init(4, 8, dcache_key_compare)`)
 copied by `dir_reader_copy` → `rbtree_copy`: `sqfs_dir_reader_resolve_inum` answers for **every** inode number on the copy
 what it answers on the original — the full 64 bit reference or `SQFS_ERROR_NO_ENTRY` — whatever directory inodes the
@@ -428,6 +721,19 @@ theorem copy_equiv_dirCache (c : Cfg) (hc : init 4 8 = some c) (st : Store) (roo
   obtain ⟨st', root', he, _, _, _, hl, _, _⟩ := rbtree_copy_equiv c st root t fuel hwf hs hf
   exact ⟨st', root', he, fun inum => by unfold dcResolve; rw [(hl dcCmp (leBytes 4 inum)).1]⟩
 
+open Sqfs.Rb in
+example : ∃ st' root', rbCopy ⟨4, 8, 8⟩ 5 (writeTree Store.empty (build ⟨4, 8, 8⟩ (fun a b => dcCmp a b == .lt)
+      [(leBytes 4 5, leBytes 8 0x571f80d44), (leBytes 4 7, leBytes 8 0x123456789abc)])).1
+      (writeTree Store.empty (build ⟨4, 8, 8⟩ (fun a b => dcCmp a b == .lt)
+      [(leBytes 4 5, leBytes 8 0x571f80d44), (leBytes 4 7, leBytes 8 0x123456789abc)])).2 = some (st', root') ∧
+    ∀ inum, dcResolve ⟨4, 8, 8⟩ st'.cells 5 root' inum = dcResolve ⟨4, 8, 8⟩ (writeTree Store.empty (build ⟨4, 8, 8⟩ (fun a b => dcCmp a b == .lt)
+      [(leBytes 4 5, leBytes 8 0x571f80d44), (leBytes 4 7, leBytes 8 0x123456789abc)])).1.cells 5
+      (writeTree Store.empty (build ⟨4, 8, 8⟩ (fun a b => dcCmp a b == .lt)
+      [(leBytes 4 5, leBytes 8 0x571f80d44), (leBytes 4 7, leBytes 8 0x123456789abc)])).2 inum := by
+  obtain ⟨hwf, _, _, hs⟩ := rbtree_built_wellformed 4 8 ⟨4, 8, 8⟩ (by decide) (fun a b => dcCmp a b == .lt)
+    [(leBytes 4 5, leBytes 8 0x571f80d44), (leBytes 4 7, leBytes 8 0x123456789abc)] Store.empty
+  exact copy_equiv_dirCache ⟨4, 8, 8⟩ (by decide) _ _ _ 5 hwf hs (by decide)
+
 open Sqfs.C19U in
 /-- `array_copy_equiv`: `array_init_copy` (allocates the used part only) of an `array_t` of any element size: every later
 sequence of `array_append` / `array_get` / `array_set` / size queries is answered as on the original -/
@@ -435,11 +741,18 @@ theorem array_copy_equiv (sz : Nat) (a : ByteArr) (ops : List ArrOp) : arrRun sz
   arrRun_data sz ops _ _ rfl
 
 open Sqfs.C19U in
-/-- `strtable_copy_equiv`: a copied string table answers every later sequence of index / string / use-count operations as
-the original (definitional at this level: the model keeps index, bytes and use count of every bucket, which is what
-`str_table_copy` duplicates; the content is in the tie — every bucket of the real copy is compared with the model's) -/
+example := array_copy_equiv 2 ⟨128, [[1, 2], [3, 4]]⟩ [.app [5, 6], .get 2, .set 0 [9, 9], .used, .get 0]
+
+open Sqfs.C19U in
+/-- `strtable_copy_equiv` — **definition-level**: the model keeps index, bytes and use count of every bucket, which is what
+`str_table_copy` duplicates, so `strCopy t = t` (a map of a field-wise identity) and "a copied string table answers every later
+sequence of index / string / use-count operations as the original" holds by construction.  The content is in the tie — every
+bucket of the real copy is compared with the model's on every run.  Not to be counted as a proof of equivalence. -/
 theorem strtable_copy_equiv (t : StrTable) (ops : List StrOp) : strRun (strCopy t) ops = strRun t ops := by
   rw [strCopy_eq]
+
+open Sqfs.C19U in
+example := strtable_copy_equiv [⟨[97], 1⟩, ⟨[98, 99], 2⟩] [.index [97], .str 1, .ref 0, .unref 1, .count 1]
 
 /-! non-vacuity of the strengthened clauses -/
 
